@@ -75,7 +75,8 @@ CHECKS = {
              "<=4 (thorough) calls of each family pool (20 SELECT, 10 INSERT/upsert, 8 UPDATE, 8 DELETE calls) and all its permutations. Every order is executed under "
              "the six dialect classes (under the generic one inside a branching history with every intermediate builder rendered); J_C13 (TLC) folds the logged calls through the spec and requires: clause sequence of the real tokens = ClauseSeq, balanced "
              "brackets/quotes, empty string for incomplete states, and ONE text for all orders that keep the relative order within each clause. Differences are "
-             "attributed to adjacent transpositions. SQLite's parser prepares the SQLite-dialect statements of the SQLite-supported subset.",
+             "attributed to adjacent transpositions. SQLite's parser prepares the SQLite-dialect statements of the SQLite-supported subset. CREATE TABLE has its own spec (PT_Ddl: option flags, accumulating "
+             "column / UNIQUE / PERIOD FOR lists, DSeq), generator (MC_Ddl: every subset of <=3/4 of 10 calls in every order, Commutes checked on the spec) and judge (J_Ddl).",
         ref="6/C13", technique="TLA+ builder state machine with ClauseSeq/Complete (PT_Builder); TLC-enumerated permutations replayed; TLC trace judge (J_C13); sqlite3 prepare"),
     "C14": dict(
         text="PT_Builder!Raises and RenderRaises give, for every call in every abstract state, the exception class that must be raised (join "
@@ -92,7 +93,8 @@ CHECKS = {
              "not re-copy), deepcopy and pickle (everything fresh); TLC proves Frozen for the intended tables and enumerates every history "
              "[dup, call] / [call, dup] over all labels of all 85 scenarios and the three mechanisms (thorough: [call, dup, call] on the rich seeds). "
              "Each is executed on the real library; J_Frozen requires that duplication never raises, that the duplicate is observed exactly "
-             "like its original (6 contexts x inline/param + metadata), and that later calls on either side leave the other unchanged.",
+             "like its original (6 contexts x inline/param + metadata), and that later calls on either side leave the other unchanged. Builders created with "
+             "immutable=False are duplicated too (PT_Sharing!MCall: the receiver coming back is their protocol; the duplicate / the original must still not move).",
         ref="6/C15", technique="TLA+ heap model with Dup actions (PT_Sharing) as history generator; replay on the code; TLC trace judge (J_Frozen)"),
     "C02": dict(
         text="PT_RenderConc models k renderer threads over one shared object as interleaved attribute micro-steps with a write footprint; TLC "
@@ -100,7 +102,8 @@ CHECKS = {
              "breaking schedule when it is not. The footprint is MEASURED on the code (structural digest of the object graph around every "
              "render pass). ~2200 renderable objects (every catalogue seed and one-call successor, hash-order probes) are rendered 3x under "
              "6 contexts x inline/param, in 4-9 other interpreter processes with different PYTHONHASHSEED and from 6 threads; J_Render (TLC) "
-             "requires every recorded render to be the spec action: digest unchanged, output equal to the first output of that context anywhere, "
+             "requires every recorded render to be the spec action: digest unchanged (also DURING the render: probe tables report the statement's shape while it is being "
+             "rendered, so a write that is undone before get_sql returns is seen), output equal to the first output of that context anywhere, "
              "caller-supplied parameterizer only appended to, and equal to what a fresh equal object gives when rendered under that one context only "
              "(no render depends on what was rendered before).",
         ref="6/C02", technique="TLA+ interleaving model with measured write footprint (PT_RenderConc) + TLC trace judge of recorded renders (J_Render)",
@@ -109,7 +112,7 @@ CHECKS = {
         text="PT_RefSql!RefFull is the reference transcription of an abstract statement (PT_Builder state) into plain SQLite text: every operator application bracketed, "
              "every column qualified by the alias-or-name of its source, explicit AS, LIMIT -1 for a lone offset. TLC grows programs of the relational core (12 bases: "
              "plain / aliased / inner, left, cross, comma and self joins / subquery source / grouped / insert / upsert / update plain, FROM, JOIN / delete; clause units "
-             "with ~150 select terms covering every arithmetic parent/child/side pair, ~45 criteria, DISTINCT, ORDER BY, LIMIT/OFFSET/slice, HAVING, window functions, "
+             "with ~150 select terms covering every arithmetic parent/child/side pair, ~45 criteria, DISTINCT, ORDER BY, LIMIT/OFFSET/slice, HAVING, window functions (partition / order lists built call by call, ROWS / RANGE frames), "
              "INSERT rows / INSERT..SELECT / REPLACE, upsert actions incl. upsert from SELECT, SET expressions; quick: one unit, thorough: two) and prints each with RefFull and "
              "its suspects; SELECT programs are also nested (FROM / IN subquery, sorted derived table under an outer LIMIT, unwrapped UNION / INTERSECT / EXCEPT). Programs whose "
              "plain transcription the engine rejects with the same diagnosis are counted, not judged. The real SQLite engine prepares both texts; identical EXPLAIN "
@@ -141,7 +144,7 @@ CHECKS = {
              "reference lexer of every dialect, stand-alone and embedded in a qualified reference. Then ~250 names (all strings of length <=2 "
              "over a 13-class alphabet incl. both quote characters, dots, spaces, brackets; keywords; mixed case; seeded Unicode) are placed at "
              "50 emission sites x 6 dialects through the real builders, and the same name-bearing objects (tables with their schemas, fields) are rendered under two "
-             "dialects with different quote characters in a row; TLC lexes the emitted characters and requires every occurrence of the "
+             "dialects with different quote characters in a row; SQLite prepares the SQLite-dialect statements against a schema whose objects carry the name; TLC lexes the emitted characters and requires every occurrence of the "
              "benign marker identifier to have become one identifier token in the dialect's quote character decoding to the name, nothing else "
              "changed. Exhaustive over alphabet x site x dialect within the bound.",
         ref="6/C07", technique="TLA+ reference lexer + identifier encoder round-trip (PT_Lex, MC_Lex); TLC lexes real statement text (J_Lit)"),
@@ -155,7 +158,7 @@ CHECKS = {
         ref="6/C16", technique="TLA+ Replace operator with ReplaceComplete model-checked (PT_Terms); TLC judge of replaced vs rebuilt renderings (J_Replace)"),
     "C17": dict(
         text="TLC generates the full cross product of table constructions (name x 5 schema forms x alias x 3 temporal clauses x 2 query classes = 120), "
-             "and 486 expression trees over fields of three tables with overlapping column names in every operand order, computing FieldsOf/TablesOf "
+             "and 486 expression trees over fields of three tables, two aliases of one table and one table name in two schemas, with overlapping column names in every operand order, computing FieldsOf/TablesOf "
              "on each tree. The executor records ==, !=, hash and set/dict/list membership matrices for the table universes (and for schemas, "
              "aliased queries, query builders and a universe of objects of different kinds sharing one name) before and after rendering, and fields_()/tables_ of each built "
              "expression - also after every node was hashed, the expression re-targeted with replace_table and combined with the original. TLC evaluates the "
